@@ -27,7 +27,7 @@ def field(line, key):
 
 
 def run_c14(ctx):
-    ctx.rule = ("harness KMS providers (opaque handle of length 16..1024, identity, failing, wrong key, wrong length) x "
+    ctx.rule = ("harness KMS providers (opaque handle of length 16..1024, identity, failing, wrong key, too short a key, the key with extra bytes) x "
                 "plaintexts 32..64 bytes; every single-bit and single-byte modification at every blob position, every "
                 "truncation, extensions, the header length fields at their extremes, a genuine decrypt straight after every provider fault; substring scan of the blob for seed and DEK; non-trivial = distinct modified "
                 "blob that passes the length pre-checks (the parse succeeds, so the provider / AEAD decide)")
@@ -84,7 +84,7 @@ def run_c14(ctx):
             mods.append((kind, pt, blob, blob + ext, "extension"))
         mods.append((kind, pt, blob, blob, "unmodified"))
         L = kind.split(":")[1] if ":" in kind else "48"
-        for k2 in ("errdec", "wrongkey", "wronglen"):
+        for k2 in ("errdec", "wrongkey", "wronglen", "longkey"):
             mods.append((k2 + ":" + L, pt, blob, blob, "provider-" + k2))
             # ... and straight afterwards, in the same process and thread, the genuine blob with the genuine
             # provider: what an earlier failed call left behind must not matter
